@@ -144,3 +144,30 @@ PROPS = {
         ],
     },
 }
+
+MINT_ASSUME = COMMON_ASSUME + [
+    "cryptography is symbolic in Model.Mint: a proof's C is the term sig(keyset,amount,secret) exactly when it equals k_{keyset,amount}·hash_to_curve(secret); soundness of that view under the joint injectivity hypothesis SigInjective is Props.C04.C04_symbolic_sound; unforgeability itself is a cryptographic assumption, not a theorem",
+    "SQLite semantics encoded in MintEff.execDb (PRIMARY KEY / UNIQUE violations fail the statement and roll the transaction back, UPDATE of a missing row is an error, uint64 >= 2^63 rejected by database/sql, SUM overflow) are modelled, tied to the SQL text by Tie.Mint.sqlText / migrations, and validated against the real SQLite by stream mint-seq",
+    "the Lightning backend is an oracle: every theorem holds for every script of answers",
+    "sequential theorems are about non-overlapping requests without storage faults (NoFault); the effect-level theorems (spent_forever_*, spent_once_effect, …) hold for every interleaving, crash prefix and fault",
+]
+
+MINT_NOTE = ("Trusted: Lean kernel; the hand-written model Model.Mint (programs written statement by statement after mint/mint.go as of the fix: commits "
+             "F1,F2,F3,F4,F11,F14,F15), tied to /repo by Tie.Mint (call skeletons of 19 functions, SQL text, schema, error rows, payment-call argument "
+             "expressions) and by the differential stream mint-seq (outcome + storage-call trace + Lightning-call ledger of every operation compared "
+             "with the real mint on real SQLite and real secp256k1); model-free monitors in streams mint-seq / mint-mon check the property itself on the "
+             "implementation. NOT covered by the model: data races below storage-call granularity, SQLite durability, real LND/CLN behaviour.")
+
+PROPS["C01"] = {
+    "claimed": True,
+    "title": "No double spend: an ecash proof is redeemed at most once, ever",
+    "lean": ["Gonuts.Props.C01", "Gonuts.Tie.Mint"],
+    "streams": ["mint-seq", "mint-mon"],
+    "thorough_shards": {"mint-seq": 4, "mint-mon": 4},
+    "level": "proof",
+    "technique": "Lean 4 invariants over an executable small-step model of the mint (effect-level for all schedules/crashes/faults; by induction over sequential histories) + differential correspondence and model-free double-spend monitors against the real mint",
+    "design_ref": "DESIGN.md §4.1, §5 C01",
+    "text": "PROVED for the model: (all programs, all interleavings, crash prefixes, injected storage faults) a row of the spent table is never removed or altered and the table never holds two rows for one secret (spent_forever_effect/_crash/_history, spent_once_effect); a spent secret is reported SPENT with its witness (spent_reported). (Sequential fault-free histories, by induction over the op list) swap and melt refuse a request as soon as one input secret is spent or locked by an in-flight melt, whatever its other fields and position, and then change no table (swap_rejects_used, melt_rejects_used); an accepted swap took pairwise distinct, previously unused secrets and all of them are spent afterwards (swap_ok_consumes); once consumed a secret is refused after ANY later history incl. rotations/restarts (consumed_rejected_forever); no secret is both locked and spent (locked_not_spent).",
+    "note": MINT_NOTE + " The swap||melt and melt||melt interleaving windows (two tables, two transactions) are NOT excluded by these theorems; they are exercised by stream mint-sched (when registered) and recorded as known findings if they reproduce.",
+    "assumptions": MINT_ASSUME,
+}
